@@ -18,6 +18,10 @@ def _wrong_value(p: args.Param, wrong: dims.DimVec) -> Any:
         vals = args.realise_param(p)
         vals[0] = q
         return vals
+    if p.kind == "qvseq":
+        vals = args.realise_param(p)
+        vals[0] = QuantityVector([args.quantity(wrong, p.m0 * (1 + i)) for i in range(3)])
+        return vals
     if p.kind == "qvector":
         return QuantityVector([args.quantity(wrong, p.m0 * (1 + i)) for i in range(3)])
     return q
